@@ -6,6 +6,15 @@ is a set-cardinality formula evaluated by TLC (spec/C18Fresh.tla)."""
 import re
 import nego_common as nc, vlib
 
+def kslabel(s):
+    """Signature suffix of a chosen key-share list: which kind of share precedes the selected one."""
+    ks = s.get("ks_list") or []
+    if not ks:
+        return ""
+    if len(ks) == 1:
+        return ":ks=only"
+    return ":ks=second-after-%s" % ("hybrid" if ks[0] in (4588, 25497) else "classical")
+
 def run(ctx):
     def subset(scns):
         out = [s for s in scns if s["ver"] == 772 and not s["alpn"] and s["cert"] == "ecdsa"]
@@ -17,7 +26,22 @@ def run(ctx):
             out = o2
         # the same offers from a custom spec that lists the key shares in the opposite order (every share, whatever
         # its position, must stay backed by its private key)
-        out = out + [dict(x, ks_reverse=True) for x in out]
+        base = out
+        out = out + [dict(x, ks_reverse=True) for x in base]
+        # custom specs with a chosen key-share list: only the group the server will select, and that group listed
+        # second after another offered one (classical or hybrid): whichever shares a spec lists, each is backed by its key
+        groups_of = {}
+        for x in base:
+            groups_of.setdefault(x["id"], set()).add(x["group"])
+        seen = set()
+        for x in base:
+            if (x["id"], x["group"]) in seen:
+                continue
+            seen.add((x["id"], x["group"]))
+            out.append(dict(x, ks_list=[x["group"]]))
+            for h in sorted(groups_of[x["id"]] - {x["group"]}):
+                if h in (23, 4588) or (h == 29 and x["group"] == 23):
+                    out.append(dict(x, ks_list=[h, x["group"]]))
         return out
     scns, events, rej, unadv, mc = nc.run_nego(ctx, "c10", subset=subset, shards=8)
     for r in rej:
@@ -31,7 +55,7 @@ def run(ctx):
             err = (r["result"] or {}).get("cerr", "")
             grp = ("shared-group-%d" % s["group"] if "invalid server key share" in err
                else "hrr-to-hybrid-group-%d" % s["group"] if "CurvePreferences includes unsupported curve" in err else "other")
-            ctx.finding("progress:%s:%s:%s:v%d%s" % (d, grp, re.sub(r"@\d+", "@seed", s["id"]), s["ver"], ":ksrev" if s.get("ks_reverse") else ""),
+            ctx.finding("progress:%s:%s:%s:v%d%s" % (d, grp, re.sub(r"@\d+", "@seed", s["id"]), s["ver"], ":ksrev" if s.get("ks_reverse") else kslabel(s)),
                         "server selected offered group %d and %s did not complete: %s (%s)" % (s["group"], s["id"], d, err),
                         {"scenario": nc.scn_brief(s), "result": r["result"]})
     # freshness: n connections per parrot; TLC counts distinct shares / randoms / session ids
